@@ -59,6 +59,8 @@ def workload(r, n=1, c=0, big=False):
     w = {"do": "app", "n": n, "c": c, "streams": streams,
          "read_max": r.choice([1, 13, 1 << 20]) if max(s["size"] for s in streams) <= 1200 else r.choice([997, 1 << 20]),
          "ordered": r.random() < 0.7}
+    if w["ordered"] and r.random() < 0.3:
+        w["unordered_after"] = r.choice([1, 2, 5])      # ordered reads first, unordered ones later
     w["maxsize"] = max(s["size"] for s in streams)
     if r.random() < 0.3:
         # the reading application answers on every bidirectional stream opened towards it
@@ -157,7 +159,42 @@ def lifecycle_random(r, idx):
 FATE_MAP = {"ok": "ok", "x": "x", "dup": "dup:3000", "delay": "delay:40000"}
 
 
+def _skey(writer_is_server, sid, client_node=1):
+    return (sid * 37 + client_node * 101 + (53 if writer_is_server else 0) + 7) % 251
+
+
+def streamdata_oddsizes(r, idx):
+    """Many individually flushed writes of arbitrary sizes on two streams under heavy loss: lost ranges
+    of every length are retransmitted next to other frames, so every way of splitting a range occurs."""
+    cfg = base_cfg(r, server={"idle_ms": 30000}, client={"idle_ms": 30000, "mtud": r.random() < 0.5})
+    cfg["loss_pct"] = r.choice([10, 20, 30])
+    cfg["dup_pct"] = r.choice([0, 5])
+    if r.random() < 0.4:
+        cfg["jitter_us"] = r.choice([3000, 30000])
+    w = r.choice([0, 1])          # which side writes
+    ids = [0 + w, 2 + w]          # first bidi and first uni stream of the writer
+    steps = [{"do": "connect", "n": 1}, {"do": "app", "n": 1 - w, "c": 0, "streams": [], "read_max": r.choice([997, 1 << 20]),
+                                        "ordered": True, "unordered_after": r.choice([0, 0, 1, 3])},
+             {"do": "run_until", "what": "connected", "max_us": 20000000},
+             {"do": "op", "n": w, "c": 0, "op": {"op": "open", "dir": 0}},
+             {"do": "op", "n": w, "c": 0, "op": {"op": "open", "dir": 1}}]
+    if r.random() < 0.6:
+        steps.append({"do": "op", "n": w, "c": 0, "op": {"op": "set_priority", "id": ids[1], "prio": r.choice([1, 5])}})
+    for _ in range(r.choice([10, 25, 50])):
+        sid = r.choice(ids)
+        steps.append({"do": "op", "n": w, "c": 0, "op": {"op": "write", "id": sid, "len": r.randrange(1, 1500),
+                                                        "key": _skey(w == 0, sid), "off": "auto"}})
+        if r.random() < 0.5:
+            steps.append({"do": "run", "us": r.choice([100, 3000, 15000, 60000])})
+    for sid in ids:
+        steps.append({"do": "op", "n": w, "c": 0, "op": {"op": "finish", "id": sid}})
+    steps.append({"do": "run", "us": 30000000})
+    return {"cfg": cfg, "steps": steps, "tag": {"family": "streamdata-odd", "idx": idx, "fates": False}}
+
+
 def streamdata_script(r, idx, fate_vec=None):
+    if fate_vec is None and r.random() < 0.2:
+        return streamdata_oddsizes(r, idx)
     cfg = base_cfg(r, server=tcfg_menu(r), client=tcfg_menu(r))
     # transfers must be able to finish: generous idle timeout
     cfg["server"]["idle_ms"] = 30000
